@@ -310,15 +310,18 @@ DoStart ==
   /\ hist' = IF KeepHist THEN <<[a |-> "init", gens |-> gens]>> ELSE <<>>
   /\ UNCHANGED <<gens, inUse, forceFull, dirty, nextId, nenv, held>>
 
+ReleaseAny == \E h \in held : DoRelease(h)
+FinishAny == \E h \in held, sh \in OutShapes : DoFinish(h, sh)
+
 Next == \/ \E seq \in Lvls, sh \in Shapes, tomb \in Tombs : DoSetupAdd(seq, sh, tomb)
         \/ DoStart
         \/ \E l \in 1..3 : DoPlanLevel(l)
         \/ \E c \in BOOLEAN : DoPlan(c)
         \/ \E c \in BOOLEAN : DoPlanOptimize(c)
         \/ DoForceFull
-        \/ \E h \in held : DoRelease(h)
+        \/ ReleaseAny
         \/ DoSnapshot
-        \/ \E h \in held, sh \in OutShapes : DoFinish(h, sh)
+        \/ FinishAny
 
 Init == /\ gens = <<>> /\ phase = "setup"
         /\ inUse = {} /\ forceFull = FALSE /\ dirty = TRUE
